@@ -254,7 +254,7 @@ def sanitizer_signature(stderr):
         m2 = re.search(r"runtime error: ([^\n]+)", stderr)
         kind = "ub:" + (m2.group(1)[:60] if m2 else "")
     fn = ""
-    for m in re.finditer(r"#\d+ 0x[0-9a-f]+ in (\w+) /repo/src/([\w./]+):(\d+)", stderr):
+    for m in re.finditer(r"#\d+ 0x[0-9a-f]+ in (\w+) /(?:[\w.-]+/)*?src/((?:internal/)?[\w.]+):(\d+)", stderr):
         fn = "%s@%s" % (m.group(1), m.group(2))
         break
     return "%s in %s" % (kind, fn or "?")
